@@ -103,6 +103,14 @@ fn autonat_server() -> SimResult {
             probe("slow-dial-back-target");
         }
     }
+    // every client also listens on a second port that no probe request ever names: the server application (or another
+    // behaviour) may dial it at any time, which has nothing to do with a dial-back
+    const APP_PORT: u16 = 4444;
+    for c in &clients {
+        let _ = c.node.swarm.borrow_mut().listen_on(net::node_addr(c.node.idx, APP_PORT));
+        c.node.kick();
+    }
+    let is_app_dial = |a: &Multiaddr| a.iter().any(|p| matches!(p, Protocol::Tcp(APP_PORT)));
     let mut resets: Vec<u64> = vec![]; // event sequence numbers of connection resets (requests in flight may legitimately die with them)
     for c in &clients {
         c.node.dial_new(speer, saddr.clone());
@@ -121,6 +129,11 @@ fn autonat_server() -> SimResult {
         if step < steps {
             if choose(5) == 0 {
                 advance(Duration::from_secs([1u64, 5, 20, 60][choose(4)]));
+            } else if choose(9) == 0 {
+                // an unrelated outbound connection from the server to a requester (possibly while its dial-back is in flight)
+                let c = &clients[choose(nclients)];
+                server.dial_new(c.node.peer, net::node_addr(c.node.idx, APP_PORT));
+                probe("unrelated-outbound-connection-to-requester");
             } else if choose(8) == 0 {
                 // fault: a connection (client's or a dial-back) is reset; clients without a connection dial again
                 if fault("transport_reset", 600) {
@@ -217,7 +230,7 @@ fn autonat_server() -> SimResult {
         }
         // ---- what the server's transport was asked to dial
         // at most one dial-back to a peer in flight at the transport, unless a connection reset intervened
-        let inflight: Vec<(u64, Multiaddr)> = net::with_net(|n| n.dials.iter().filter(|d| d.node == server.idx && d.first_poll.is_some() && d.done.is_none() && !d.dropped_unfinished).map(|d| (d.created_seq, d.addr.clone())).collect());
+        let inflight: Vec<(u64, Multiaddr)> = net::with_net(|n| n.dials.iter().filter(|d| d.node == server.idx && d.first_poll.is_some() && d.done.is_none() && !d.dropped_unfinished && !is_app_dial(&d.addr)).map(|d| (d.created_seq, d.addr.clone())).collect());
         for (ci, a) in &inflight {
             for (cj, b) in &inflight {
                 if cj > ci && a.iter().last() == b.iter().last() && !resets.iter().any(|r| ci < r && r < cj) {
@@ -227,6 +240,9 @@ fn autonat_server() -> SimResult {
         }
         let recs: Vec<Multiaddr> = net::with_net(|n| n.dials.iter().filter(|d| d.node == server.idx).map(|d| d.addr.clone()).collect());
         for a in recs.iter().skip(dials_seen) {
+            if is_app_dial(a) {
+                continue;
+            }
             dialbacks += 1;
             let last = a.iter().last();
             let Some(Protocol::P2p(target)) = last else {
